@@ -1,0 +1,171 @@
+//go:build verif
+
+// Contracts for headers and footers (properties C11, C02), read by /verif/engine (govc).
+// Comments only: with or without the build tag this file adds no code to the package.
+package document
+
+// ---- section settings used by the header/footer calls -----------------------------------------------------
+
+// Found-or-created like getSectionProperties (zz_contracts_verif_body.go): the FIRST section-properties element of
+// the body, or a fresh one (no references yet) appended at the end. Never adds a second one; every other body
+// element stays where it was; the only field written on an existing object is the relationship namespace of the
+// returned element, and only when it was empty.
+//@ func (*Document).getSectionPropertiesForHeaderFooter
+//@ props C11, C08
+//@ requires d != nil && d.Body != nil && elemsOK(d.Body.Elements)
+//@ ensures d.Body == old(d.Body) && elemsOK(d.Body.Elements)
+//@ ensures result != nil && result.XmlnsR != ""
+//@ ensures !old(noSect(d.Body.Elements)) ==> allocated(result) && len(d.Body.Elements) == old(len(d.Body.Elements)) && (exists p int :: firstSectAt(d.Body.Elements, p) && d.Body.Elements[p].(*SectionProperties) == result)
+//@ ensures old(noSect(d.Body.Elements)) ==> fresh(result) && len(d.Body.Elements) == old(len(d.Body.Elements)) + 1 && isSect(d.Body.Elements[old(len(d.Body.Elements))]) && d.Body.Elements[old(len(d.Body.Elements))].(*SectionProperties) == result
+//@ ensures old(noSect(d.Body.Elements)) ==> len(result.HeaderReferences) == 0 && len(result.FooterReferences) == 0 && result.TitlePage == nil
+//@ ensures forall j int :: 0 <= j && j < old(len(d.Body.Elements)) ==> d.Body.Elements[j] == old(d.Body.Elements[j])
+//@ ensures forall s *SectionProperties :: {s.XmlnsR} allocated(s) && (s != result || old(s.XmlnsR) != "") ==> s.XmlnsR == old(s.XmlnsR)
+//@ ensures unchangedExcept("Body.Elements", "cell:any", "SectionProperties.XmlnsR")
+//@ loop 1
+//@   invariant 0 <= #i && #i <= len(d.Body.Elements) && unchangedHeap() && d.Body != nil
+//@   invariant forall q int :: 0 <= q && q < #i ==> !isSect(d.Body.Elements[q])
+//@   decreases len(d.Body.Elements) - #i
+
+// ---- part names, relationships and content types ------------------------------------------------------------
+
+// hfFile(prefix, kind): the file name of the part of a kind ("header"/"footer" + "1.xml" | "first.xml" | "even.xml");
+// the part itself is "word/" + hfFile(prefix, kind). validKind: one of the three kinds of the format.
+//@ spec validKind(kind HeaderFooterType) bool = kind == HeaderFooterTypeDefault || kind == HeaderFooterTypeFirst || kind == HeaderFooterTypeEven
+//@ spec hfFile(prefix string, kind HeaderFooterType) string = ite(kind == HeaderFooterTypeFirst, prefix + "first.xml", ite(kind == HeaderFooterTypeEven, prefix + "even.xml", prefix + "1.xml"))
+
+// One part name per kind: the name is the one above, and for the three kinds it determines the kind
+// (two different kinds never share a part).
+//@ func getFileNameForType
+//@ props C11
+//@ modifies nothing
+//@ ensures result == hfFile(typePrefix, headerType)
+//@ ensures validKind(headerType) ==> ((result == typePrefix + "1.xml") == (headerType == HeaderFooterTypeDefault)) && ((result == typePrefix + "first.xml") == (headerType == HeaderFooterTypeFirst)) && ((result == typePrefix + "even.xml") == (headerType == HeaderFooterTypeEven))
+
+// relFirstAt(rs, j, t, f): rs[j] is the first relationship of type t with target f; relNone: there is none;
+// relIDsUnique: no two relationships of the list share an id.
+//@ spec relFirstAt(rs []Relationship, j int, t string, f string) bool = 0 <= j && j < len(rs) && rs[j].Type == t && rs[j].Target == f && (forall q int :: {rs[q]} 0 <= q && q < j ==> !(rs[q].Type == t && rs[q].Target == f))
+//@ spec relNone(rs []Relationship, t string, f string) bool = forall q int :: {rs[q]} 0 <= q && q < len(rs) ==> !(rs[q].Type == t && rs[q].Target == f)
+//@ spec relIDsUnique(rs []Relationship) bool = forall a int, b int :: {rs[a], rs[b]} 0 <= a && a < b && b < len(rs) ==> rs[a].ID != rs[b].ID
+
+// relResolves(rs, id, t, f): the id resolves, in the list, to a relationship of type t with target f.
+//@ spec relResolves(rs []Relationship, id string, t string, f string) bool = exists j int :: {rs[j]} 0 <= j && j < len(rs) && rs[j].ID == id && rs[j].Type == t && rs[j].Target == f
+
+// The relationship of a header/footer part is found or created: if the document relationship list has a relationship
+// of the type to the target, nothing changes and the id of the first such relationship is returned (a redefined kind
+// does not leave a second relationship to the same part); otherwise exactly one relationship (fresh id that no
+// relationship carries and that is not "rId1", the type, the target) is appended and every earlier one stays.
+// Either way the returned id resolves, in the list, to a relationship of that type and target; unique ids stay unique.
+//@ func (*Document).headerFooterRelationshipID
+//@ props C11, C02
+//@ requires d != nil && d.documentRelationships != nil
+//@ ensures d.documentRelationships == old(d.documentRelationships)
+//@ ensures !old(relNone(d.documentRelationships.Relationships, relType, fileName)) ==> unchangedHeap() && (exists j int :: relFirstAt(d.documentRelationships.Relationships, j, relType, fileName) && d.documentRelationships.Relationships[j].ID == result) && relResolves(d.documentRelationships.Relationships, result, relType, fileName)
+//@ ensures old(relNone(d.documentRelationships.Relationships, relType, fileName)) ==> len(d.documentRelationships.Relationships) == old(len(d.documentRelationships.Relationships)) + 1 && d.documentRelationships.Relationships[old(len(d.documentRelationships.Relationships))].ID == result && d.documentRelationships.Relationships[old(len(d.documentRelationships.Relationships))].Type == relType && d.documentRelationships.Relationships[old(len(d.documentRelationships.Relationships))].Target == fileName && relResolves(d.documentRelationships.Relationships, result, relType, fileName)
+//@ ensures old(relNone(d.documentRelationships.Relationships, relType, fileName)) ==> result != "rId1" && old(relIDFree(d.documentRelationships.Relationships, result))
+//@ ensures forall j int :: 0 <= j && j < old(len(d.documentRelationships.Relationships)) ==> d.documentRelationships.Relationships[j] == old(d.documentRelationships.Relationships[j])
+//@ ensures old(relIDsUnique(d.documentRelationships.Relationships)) ==> relIDsUnique(d.documentRelationships.Relationships)
+//@ ensures unchangedExcept("Relationships.Relationships", "Relationship.*")
+//@ loop 1
+//@   invariant 0 <= #i && #i <= len(d.documentRelationships.Relationships) && unchangedHeap() && d.documentRelationships != nil
+//@   invariant forall q int :: 0 <= q && q < #i ==> !(d.documentRelationships.Relationships[q].Type == relType && d.documentRelationships.Relationships[q].Target == fileName)
+//@   decreases len(d.documentRelationships.Relationships) - #i
+
+// ctHas(os, name): the content-type list has an override for the part.
+//@ spec ctHas(os []Override, name string) bool = exists o int :: 0 <= o && o < len(os) && os[o].PartName == name
+
+// addContentType registers the override of a part once: an existing override for the part is kept (nothing changes),
+// otherwise exactly one (part, type) is appended; earlier overrides stay.
+//@ func (*Document).addContentType
+//@ props C11
+//@ requires d != nil && d.contentTypes != nil
+//@ ensures d.contentTypes == old(d.contentTypes)
+//@ ensures old(ctHas(d.contentTypes.Overrides, "/" + partName)) ==> unchangedHeap()
+//@ ensures !old(ctHas(d.contentTypes.Overrides, "/" + partName)) ==> len(d.contentTypes.Overrides) == old(len(d.contentTypes.Overrides)) + 1 && d.contentTypes.Overrides[old(len(d.contentTypes.Overrides))].PartName == "/" + partName && d.contentTypes.Overrides[old(len(d.contentTypes.Overrides))].ContentType == contentType
+//@ ensures forall j int :: 0 <= j && j < old(len(d.contentTypes.Overrides)) ==> d.contentTypes.Overrides[j] == old(d.contentTypes.Overrides[j])
+//@ ensures ctHas(d.contentTypes.Overrides, "/" + partName)
+//@ ensures unchangedExcept("ContentTypes.Overrides", "Override.*")
+//@ loop 1
+//@   invariant 0 <= #i && #i <= len(d.contentTypes.Overrides) && unchangedHeap() && d.contentTypes != nil
+//@   invariant forall q int :: 0 <= q && q < #i ==> d.contentTypes.Overrides[q].PartName != "/" + partName
+//@   decreases len(d.contentTypes.Overrides) - #i
+
+// ---- references in the section settings -------------------------------------------------------------------
+
+// isFirstSect(es, s): s is the section-properties element the header/footer calls work on (the first one of the body).
+//@ spec isFirstSect(es []any, s *SectionProperties) bool = exists p int :: firstSectAt(es, p) && es[p].(*SectionProperties) == s
+
+// hdrFirstAt(rs, k, kind): rs[k] is the first reference of the kind; hdrNone(rs, kind): there is none.
+//@ spec hdrFirstAt(rs []*HeaderFooterReference, k int, kind string) bool = 0 <= k && k < len(rs) && rs[k] != nil && rs[k].Type == kind && (forall q int :: 0 <= q && q < k ==> rs[q] == nil || rs[q].Type != kind)
+//@ spec hdrNone(rs []*HeaderFooterReference, kind string) bool = forall q int :: 0 <= q && q < len(rs) ==> rs[q] == nil || rs[q].Type != kind
+// hdrOneAt(rs, k, kind, id): rs[k] is the only reference of the kind in the list, and it carries the id; hdrOne: some k.
+//@ spec hdrOneAt(rs []*HeaderFooterReference, k int, kind string, id string) bool = 0 <= k && k < len(rs) && rs[k] != nil && rs[k].Type == kind && rs[k].ID == id && (forall q int :: 0 <= q && q < len(rs) && q != k ==> rs[q] == nil || rs[q].Type != kind)
+//@ spec hdrOne(rs []*HeaderFooterReference, kind string, id string) bool = exists k int :: hdrOneAt(rs, k, kind, id)
+// hdrAtMostOne(rs, kind): no two entries of the list are references of the kind.
+//@ spec hdrAtMostOne(rs []*HeaderFooterReference, kind string) bool = forall a int, b int :: 0 <= a && a < b && b < len(rs) && rs[a] != nil && rs[a].Type == kind ==> rs[b] == nil || rs[b].Type != kind
+
+// addHeaderReference(kind, id): the section settings are found or created (never a second element in the body, every
+// other body element stays in place). If they had a reference of the kind, the FIRST such reference now carries the
+// new id and the list is otherwise the same list of the same objects; if they had none, one fresh reference
+// (kind, id) is appended and the earlier entries stay. No reference object changes its kind, no other reference
+// changes its id, footer references and every other section-properties object are untouched.
+//@ func (*Document).addHeaderReference
+//@ props C11, C02
+//@ requires d != nil && d.Body != nil && elemsOK(d.Body.Elements)
+//@ ensures d.Body == old(d.Body) && elemsOK(d.Body.Elements)
+//@ ensures !old(noSect(d.Body.Elements)) ==> len(d.Body.Elements) == old(len(d.Body.Elements))
+//@ ensures old(noSect(d.Body.Elements)) ==> len(d.Body.Elements) == old(len(d.Body.Elements)) + 1 && isSect(d.Body.Elements[old(len(d.Body.Elements))]) && fresh(d.Body.Elements[old(len(d.Body.Elements))].(*SectionProperties))
+//@ ensures forall j int :: 0 <= j && j < old(len(d.Body.Elements)) ==> d.Body.Elements[j] == old(d.Body.Elements[j])
+//@ ensures old(noSect(d.Body.Elements)) ==> len(d.Body.Elements[old(len(d.Body.Elements))].(*SectionProperties).HeaderReferences) == 1 && len(d.Body.Elements[old(len(d.Body.Elements))].(*SectionProperties).FooterReferences) == 0 && d.Body.Elements[old(len(d.Body.Elements))].(*SectionProperties).TitlePage == nil
+//@ ensures old(noSect(d.Body.Elements)) ==> fresh(d.Body.Elements[old(len(d.Body.Elements))].(*SectionProperties).HeaderReferences[0]) && d.Body.Elements[old(len(d.Body.Elements))].(*SectionProperties).HeaderReferences[0].Type == string(headerType) && d.Body.Elements[old(len(d.Body.Elements))].(*SectionProperties).HeaderReferences[0].ID == headerID
+//@ ensures forall s *SectionProperties :: allocated(s) && old(isFirstSect(d.Body.Elements, s)) && old(hdrNone(s.HeaderReferences, string(headerType))) ==> len(s.HeaderReferences) == old(len(s.HeaderReferences)) + 1 && fresh(s.HeaderReferences[old(len(s.HeaderReferences))]) && s.HeaderReferences[old(len(s.HeaderReferences))].Type == string(headerType) && s.HeaderReferences[old(len(s.HeaderReferences))].ID == headerID && (forall q int :: 0 <= q && q < old(len(s.HeaderReferences)) ==> s.HeaderReferences[q] == old(s.HeaderReferences[q]))
+//@ ensures forall s *SectionProperties, k int :: allocated(s) && old(isFirstSect(d.Body.Elements, s)) && old(hdrFirstAt(s.HeaderReferences, k, string(headerType))) ==> len(s.HeaderReferences) == old(len(s.HeaderReferences)) && s.HeaderReferences[k].ID == headerID && (forall q int :: 0 <= q && q < len(s.HeaderReferences) ==> s.HeaderReferences[q] == old(s.HeaderReferences[q])) && (forall r *HeaderFooterReference :: allocated(r) && r != old(s.HeaderReferences[k]) ==> r.ID == old(r.ID))
+//@ ensures (old(noSect(d.Body.Elements)) || (forall s *SectionProperties :: allocated(s) && old(isFirstSect(d.Body.Elements, s)) ==> old(hdrNone(s.HeaderReferences, string(headerType))))) ==> forall r *HeaderFooterReference :: allocated(r) ==> r.ID == old(r.ID)
+//@ ensures forall s *SectionProperties :: allocated(s) && !old(isFirstSect(d.Body.Elements, s)) ==> s.HeaderReferences == old(s.HeaderReferences) && s.XmlnsR == old(s.XmlnsR)
+//@ ensures forall s *SectionProperties :: allocated(s) && old(s.XmlnsR) != "" ==> s.XmlnsR == old(s.XmlnsR)
+//@ ensures old(noSect(d.Body.Elements)) ==> hdrOneAt(d.Body.Elements[old(len(d.Body.Elements))].(*SectionProperties).HeaderReferences, 0, string(headerType), headerID)
+//@ ensures forall s *SectionProperties :: allocated(s) && old(isFirstSect(d.Body.Elements, s)) && old(hdrNone(s.HeaderReferences, string(headerType))) ==> hdrOneAt(s.HeaderReferences, old(len(s.HeaderReferences)), string(headerType), headerID)
+//@ ensures forall s *SectionProperties, k int :: allocated(s) && old(isFirstSect(d.Body.Elements, s)) && old(hdrFirstAt(s.HeaderReferences, k, string(headerType))) && old(hdrAtMostOne(s.HeaderReferences, string(headerType))) ==> hdrOneAt(s.HeaderReferences, k, string(headerType), headerID)
+//@ ensures forall s *SectionProperties, other string :: allocated(s) && old(isFirstSect(d.Body.Elements, s)) && other != string(headerType) && old(hdrAtMostOne(s.HeaderReferences, other)) ==> hdrAtMostOne(s.HeaderReferences, other)
+//@ ensures unchangedExcept("Body.Elements", "cell:any", "SectionProperties.XmlnsR", "SectionProperties.HeaderReferences", "HeaderFooterReference.ID", "cell:*HeaderFooterReference")
+//@ loop 1
+//@   invariant 0 <= #i && #i <= len(sectPr.HeaderReferences)
+//@   invariant forall q int :: 0 <= q && q < #i ==> sectPr.HeaderReferences[q] == nil || sectPr.HeaderReferences[q].Type != string(headerType)
+//@   decreases len(sectPr.HeaderReferences) - #i
+
+// ftrFirstAt(rs, k, kind): rs[k] is the first reference of the kind; ftrNone(rs, kind): there is none.
+//@ spec ftrFirstAt(rs []*FooterReference, k int, kind string) bool = 0 <= k && k < len(rs) && rs[k] != nil && rs[k].Type == kind && (forall q int :: 0 <= q && q < k ==> rs[q] == nil || rs[q].Type != kind)
+//@ spec ftrNone(rs []*FooterReference, kind string) bool = forall q int :: 0 <= q && q < len(rs) ==> rs[q] == nil || rs[q].Type != kind
+// ftrOneAt(rs, k, kind, id): rs[k] is the only reference of the kind in the list, and it carries the id; ftrOne: some k.
+//@ spec ftrOneAt(rs []*FooterReference, k int, kind string, id string) bool = 0 <= k && k < len(rs) && rs[k] != nil && rs[k].Type == kind && rs[k].ID == id && (forall q int :: 0 <= q && q < len(rs) && q != k ==> rs[q] == nil || rs[q].Type != kind)
+//@ spec ftrOne(rs []*FooterReference, kind string, id string) bool = exists k int :: ftrOneAt(rs, k, kind, id)
+// ftrAtMostOne(rs, kind): no two entries of the list are references of the kind.
+//@ spec ftrAtMostOne(rs []*FooterReference, kind string) bool = forall a int, b int :: 0 <= a && a < b && b < len(rs) && rs[a] != nil && rs[a].Type == kind ==> rs[b] == nil || rs[b].Type != kind
+
+// addFooterReference(kind, id): the same for footers. The section settings are found or created (never a second element in the body, every
+// other body element stays in place). If they had a reference of the kind, the FIRST such reference now carries the
+// new id and the list is otherwise the same list of the same objects; if they had none, one fresh reference
+// (kind, id) is appended and the earlier entries stay. No reference object changes its kind, no other reference
+// changes its id, header references and every other section-properties object are untouched.
+//@ func (*Document).addFooterReference
+//@ props C11, C02
+//@ requires d != nil && d.Body != nil && elemsOK(d.Body.Elements)
+//@ ensures d.Body == old(d.Body) && elemsOK(d.Body.Elements)
+//@ ensures !old(noSect(d.Body.Elements)) ==> len(d.Body.Elements) == old(len(d.Body.Elements))
+//@ ensures old(noSect(d.Body.Elements)) ==> len(d.Body.Elements) == old(len(d.Body.Elements)) + 1 && isSect(d.Body.Elements[old(len(d.Body.Elements))]) && fresh(d.Body.Elements[old(len(d.Body.Elements))].(*SectionProperties))
+//@ ensures forall j int :: 0 <= j && j < old(len(d.Body.Elements)) ==> d.Body.Elements[j] == old(d.Body.Elements[j])
+//@ ensures old(noSect(d.Body.Elements)) ==> len(d.Body.Elements[old(len(d.Body.Elements))].(*SectionProperties).FooterReferences) == 1 && len(d.Body.Elements[old(len(d.Body.Elements))].(*SectionProperties).HeaderReferences) == 0 && d.Body.Elements[old(len(d.Body.Elements))].(*SectionProperties).TitlePage == nil
+//@ ensures old(noSect(d.Body.Elements)) ==> fresh(d.Body.Elements[old(len(d.Body.Elements))].(*SectionProperties).FooterReferences[0]) && d.Body.Elements[old(len(d.Body.Elements))].(*SectionProperties).FooterReferences[0].Type == string(footerType) && d.Body.Elements[old(len(d.Body.Elements))].(*SectionProperties).FooterReferences[0].ID == footerID
+//@ ensures forall s *SectionProperties :: allocated(s) && old(isFirstSect(d.Body.Elements, s)) && old(ftrNone(s.FooterReferences, string(footerType))) ==> len(s.FooterReferences) == old(len(s.FooterReferences)) + 1 && fresh(s.FooterReferences[old(len(s.FooterReferences))]) && s.FooterReferences[old(len(s.FooterReferences))].Type == string(footerType) && s.FooterReferences[old(len(s.FooterReferences))].ID == footerID && (forall q int :: 0 <= q && q < old(len(s.FooterReferences)) ==> s.FooterReferences[q] == old(s.FooterReferences[q]))
+//@ ensures forall s *SectionProperties, k int :: allocated(s) && old(isFirstSect(d.Body.Elements, s)) && old(ftrFirstAt(s.FooterReferences, k, string(footerType))) ==> len(s.FooterReferences) == old(len(s.FooterReferences)) && s.FooterReferences[k].ID == footerID && (forall q int :: 0 <= q && q < len(s.FooterReferences) ==> s.FooterReferences[q] == old(s.FooterReferences[q])) && (forall r *FooterReference :: allocated(r) && r != old(s.FooterReferences[k]) ==> r.ID == old(r.ID))
+//@ ensures (old(noSect(d.Body.Elements)) || (forall s *SectionProperties :: allocated(s) && old(isFirstSect(d.Body.Elements, s)) ==> old(ftrNone(s.FooterReferences, string(footerType))))) ==> forall r *FooterReference :: allocated(r) ==> r.ID == old(r.ID)
+//@ ensures forall s *SectionProperties :: allocated(s) && !old(isFirstSect(d.Body.Elements, s)) ==> s.FooterReferences == old(s.FooterReferences) && s.XmlnsR == old(s.XmlnsR)
+//@ ensures forall s *SectionProperties :: allocated(s) && old(s.XmlnsR) != "" ==> s.XmlnsR == old(s.XmlnsR)
+//@ ensures old(noSect(d.Body.Elements)) ==> ftrOneAt(d.Body.Elements[old(len(d.Body.Elements))].(*SectionProperties).FooterReferences, 0, string(footerType), footerID)
+//@ ensures forall s *SectionProperties :: allocated(s) && old(isFirstSect(d.Body.Elements, s)) && old(ftrNone(s.FooterReferences, string(footerType))) ==> ftrOneAt(s.FooterReferences, old(len(s.FooterReferences)), string(footerType), footerID)
+//@ ensures forall s *SectionProperties, k int :: allocated(s) && old(isFirstSect(d.Body.Elements, s)) && old(ftrFirstAt(s.FooterReferences, k, string(footerType))) && old(ftrAtMostOne(s.FooterReferences, string(footerType))) ==> ftrOneAt(s.FooterReferences, k, string(footerType), footerID)
+//@ ensures forall s *SectionProperties, other string :: allocated(s) && old(isFirstSect(d.Body.Elements, s)) && other != string(footerType) && old(ftrAtMostOne(s.FooterReferences, other)) ==> ftrAtMostOne(s.FooterReferences, other)
+//@ ensures unchangedExcept("Body.Elements", "cell:any", "SectionProperties.XmlnsR", "SectionProperties.FooterReferences", "FooterReference.ID", "cell:*FooterReference")
+//@ loop 1
+//@   invariant 0 <= #i && #i <= len(sectPr.FooterReferences)
+//@   invariant forall q int :: 0 <= q && q < #i ==> sectPr.FooterReferences[q] == nil || sectPr.FooterReferences[q].Type != string(footerType)
+//@   decreases len(sectPr.FooterReferences) - #i
